@@ -9,7 +9,7 @@ use crate::engine::{self, Built};
 use crate::gen::{self, RandCfg};
 use fancy_regex::{Expr, Regex};
 
-pub const VARIANTS: [&str; 14] = [
+pub const VARIANTS: [&str; 15] = [
     "x-mode, one space between tokens, spaced braces",
     "x-mode, mixed whitespace and # comments",
     "(?#..) comments between tokens",
@@ -24,6 +24,7 @@ pub const VARIANTS: [&str; 14] = [
     "top-level scoped flag group (?on:X) as (?on)X(?-on)",
     "(?-m:^) (?-m:$) as \\A \\z (under every flag setting)",
     "atomic group around a quantified atom as possessive suffix (X*?+ for a lazy one)",
+    "redundant non-capturing groups around pairs of concatenation members (behaviour only)",
 ];
 
 pub struct Respell {
@@ -69,6 +70,7 @@ pub fn respell(n: &Node, variant: usize) -> String {
         9 => join(&n.tokens(&PrintOpts { lit_style: 2, anchors_az: az, ..Default::default() }), |i| if i % 3 == 0 { "(?#q)" } else { "" }),
         12 => n.to_pattern_with(&PrintOpts { anchors_az: true, ..Default::default() }),
         13 => n.to_pattern_with(&PrintOpts { atomic_as_poss: true, ..Default::default() }),
+        14 => n.to_pattern_with(&PrintOpts { redundant_groups: true, ..Default::default() }),
         11 => {
             // only meaningful when nothing else sets flags around the toggled groups
             let nested = n.any(|x| matches!(x, Flags(_, _, c) if c.any(|y| matches!(y, Flags(..) | SetFlags(..) | AnyNl | Assert(A::StartLine) | Assert(A::EndLine))))) || n.any(|x| matches!(x, SetFlags(..)));
@@ -145,7 +147,7 @@ impl PatProp for Respell {
         };
         // same expression tree (the toggle spelling flattens a nested concatenation, which is a different
         // tree by construction: only its behaviour is compared)
-        if self.variant != 11 {
+        if self.variant != 11 && self.variant != 14 {
         match (Expr::parse_tree(&base), Expr::parse_tree(pat)) {
             (Ok(ta), Ok(tb)) => {
                 if !expr_eq(&ta.expr, &tb.expr) {
